@@ -14,6 +14,7 @@ package c13_test
 import (
 	"fmt"
 	"math/rand/v2"
+	"strings"
 
 	metadb "github.com/WuKongIM/WuKongIM/pkg/db/meta"
 	"github.com/WuKongIM/WuKongIM/pkg/protocol/channelid"
@@ -48,6 +49,10 @@ type c13Cmd struct {
 	Desc     string // human readable arguments
 	Flavour  string // "", "stale", "conflict", "duplicate", "invalid"
 	Chan     string // channel key touched, if any (for family rules)
+	// Ents names the entities (channel row family, uid row family, hash-slot
+	// migration state) whose state the command reads or writes; used only for
+	// the "dependent pair inside one batch" evidence counters.
+	Ents []string
 }
 
 type c13Family struct {
@@ -542,10 +547,10 @@ func (g *c13Gen) genChannelMigration() c13Cmd {
 	guard := c13TaskGuard(task)
 	rg := c13RuntimeGuard(meta)
 	flavour := ""
-	if g.p(12) {
+	if g.p(8) {
 		guard.ExpectedUpdatedAtMS--
 		flavour = "stale"
-	} else if g.p(6) {
+	} else if g.p(4) {
 		rg.ExpectedLeaderEpoch++
 		flavour = "stale"
 	}
@@ -565,14 +570,14 @@ func (g *c13Gen) genChannelMigration() c13Cmd {
 		return mk("advance_migration_task", fsm.EncodeAdvanceChannelMigrationTaskCommand(req), fmt.Sprintf("%s %d->%d proof=%v", task.TaskID, task.Phase, phase, withProof), flavour)
 	}
 	setFence := func(phase metadb.ChannelMigrationPhase) c13Cmd {
-		req := metadb.ChannelMigrationFenceRequest{Guard: guard, RuntimeGuard: rg, Status: running, Phase: phase, FenceReason: 1, FenceUntilMS: g.now + 20 + int64(g.small(30)), UpdatedAtMS: upd}
+		req := metadb.ChannelMigrationFenceRequest{Guard: guard, RuntimeGuard: rg, Status: running, Phase: phase, FenceReason: 1, FenceUntilMS: g.now + 300 + int64(g.small(300)), UpdatedAtMS: upd}
 		return mk("set_channel_write_fence", fsm.EncodeSetChannelWriteFenceCommand(req), fmt.Sprintf("%s %d->%d", task.TaskID, task.Phase, phase), flavour)
 	}
 	clearFence := func() c13Cmd {
 		req := metadb.ChannelMigrationClearFenceRequest{Guard: guard, RuntimeGuard: rg, Status: metadb.ChannelMigrationStatusCompleted, Phase: metadb.ChannelMigrationPhaseClearFence, UpdatedAtMS: upd, CompletedAtMS: upd}
 		return mk("clear_channel_write_fence", fsm.EncodeClearChannelWriteFenceCommand(req), fmt.Sprintf("%s phase=%d", task.TaskID, task.Phase), flavour)
 	}
-	if g.p(7) {
+	if g.p(4) {
 		req := metadb.ChannelMigrationAbortRequest{Guard: guard, RuntimeGuard: rg, Status: metadb.ChannelMigrationStatusAborted, Phase: task.Phase, UpdatedAtMS: upd, CompletedAtMS: upd, LastError: "aborted"}
 		return mk("abort_channel_migration", fsm.EncodeAbortChannelMigrationCommand(req), fmt.Sprintf("%s phase=%d", task.TaskID, task.Phase), flavour)
 	}
@@ -585,7 +590,7 @@ func (g *c13Gen) genChannelMigration() c13Cmd {
 		if task.Kind == metadb.ChannelMigrationKindReplicaReplace {
 			back = metadb.ChannelMigrationPhaseWarmCatchUp
 		}
-		req := metadb.ChannelMigrationResetFenceRequest{Guard: guard, RuntimeGuard: rg, Status: running, Phase: back, NowMS: g.now + int64(g.small(60)), UpdatedAtMS: upd}
+		req := metadb.ChannelMigrationResetFenceRequest{Guard: guard, RuntimeGuard: rg, Status: running, Phase: back, NowMS: meta.WriteFenceUntilMS - 1 + int64(g.small(4)), UpdatedAtMS: upd}
 		return mk("reset_channel_write_fence", fsm.EncodeResetChannelWriteFenceToPreCutoverCommand(req), fmt.Sprintf("%s now=%d until=%d", task.TaskID, req.NowMS, meta.WriteFenceUntilMS), flavour)
 	}
 	leaderFlow := task.Kind != metadb.ChannelMigrationKindReplicaReplace
@@ -723,6 +728,34 @@ func (g *c13Gen) genInvalid() c13Cmd {
 	}
 }
 
+// c13DeriveEnts derives entity names from the generator's descriptors: the
+// channel key when the command is channel-addressed, every uid / channel id
+// mentioned in the argument description otherwise, and the hash slot for
+// hash-slot migration maintenance commands.
+func c13DeriveEnts(c c13Cmd) []string {
+	var out []string
+	if c.Chan != "" {
+		out = append(out, "chan:"+c.Chan)
+	}
+	switch c.Type {
+	case "apply_delta", "enter_fence", "ack_migration_outbox", "cleanup_migration_outbox":
+		out = append(out, fmt.Sprintf("hsmig:%d", c.HashSlot))
+	}
+	for _, uid := range c13UIDs {
+		if strings.Contains(c.Desc, "UID:"+uid) || strings.HasPrefix(c.Desc, uid+"/") {
+			out = append(out, fmt.Sprintf("uid:%d/%s", c.HashSlot, uid))
+		}
+	}
+	if c.Chan == "" {
+		for _, id := range []string{"g1", "g2", "g3", "u2@u1", "u3@u1"} {
+			if strings.Contains(c.Desc, "ChannelID:"+id) || strings.Contains(c.Desc, "/"+id+"/") || strings.Contains(c.Desc, "first="+id) {
+				out = append(out, "chanid:"+id)
+			}
+		}
+	}
+	return out
+}
+
 // next produces the next command of the log. nextIndex is the Raft index the
 // command will carry (used for plausible outbox acknowledgements).
 func (g *c13Gen) next(nextIndex uint64) c13Cmd {
@@ -738,6 +771,9 @@ func (g *c13Gen) next(nextIndex uint64) c13Cmd {
 	}
 	var c c13Cmd
 	x := g.rng.IntN(100)
+	if g.fam.ChMig && g.burstLeft == 0 && g.p(14) {
+		x = 80 // extra weight for the migration workflow in its own families
+	}
 	if g.burstLeft > 0 {
 		g.burstLeft--
 		x = g.burstX
@@ -796,6 +832,9 @@ func (g *c13Gen) next(nextIndex uint64) c13Cmd {
 	}
 	if c.Type == "delete_channel" {
 		g.deleted[c.Chan] = true
+	}
+	if len(c.Ents) == 0 {
+		c.Ents = c13DeriveEnts(c)
 	}
 	g.pool = append(g.pool, c)
 	if len(g.pool) > 20 {
